@@ -125,10 +125,11 @@ def NOT(x):
 
 class Val:
     """value of a place: scalar term, reference, or opaque with optional structure"""
-    __slots__ = ("term", "sort", "ref", "mut")
+    __slots__ = ("term", "sort", "ref", "mut", "alts")
 
     def __init__(self, term=None, sort=None, ref=None, mut=False):
         self.term, self.sort, self.ref, self.mut = term, sort, ref, mut
+        self.alts = ()
 
     def __repr__(self):
         return "Val(%s,%s,ref=%s)" % (self.term, self.sort, self.ref)
@@ -159,6 +160,7 @@ class Event:
 
 
 NAMED_CONSTS = {}   # last path segment -> literal text (filled from the dump by mirrun)
+NAMED_CONSTS_ALL = {}  # last path segment -> every literal seen under that name (types may differ)
 ENUM_VARIANTS = {}  # (enum name, unit variant) -> discriminant, registered by property modules from the source text
 
 
@@ -432,12 +434,18 @@ class Executor:
         if text.startswith("const "):
             c = self.const(text[6:])
             if c is None:
-                lit = self.named_consts.get(text[6:].strip().split("::")[-1])
+                name = text[6:].strip().split("::")[-1]
+                lit = self.named_consts.get(name)
                 if lit is not None:
                     c = self.const(lit)
+                    if c is not None:
+                        # same-named constants of other modules / crates (different types)
+                        c.alts = [x for x in (self.const(l) for l in NAMED_CONSTS_ALL.get(name, [])) if x is not None]
             if c is not None:
                 return c, None
-            return Val(self.ctx.sym("const." + text[6:26], 64), 64), None
+            u = Val(self.ctx.sym("const." + text[6:26], 64), 64)
+            u.alts = ("?",)   # unknown constant: its width is whatever the other operand needs
+            return u, None
         if text.startswith("copy ") or text.startswith("move "):
             c, ty = self.canon(env, text[5:])
             pty = self.place_type(c, ty)
@@ -543,6 +551,14 @@ class Executor:
             if m.group(1) in ("Offset", "Cmp"):
                 self.havoc_place(env, c, dty)
                 return
+            a, b = self.coerce_unknown(a, b)
+            if a.sort != b.sort and m.group(1)[:3] not in ("Shl", "Shr"):
+                for x in b.alts:
+                    if x != "?" and x.sort == a.sort:
+                        b = x
+                for x in a.alts:
+                    if x != "?" and x.sort == b.sort:
+                        a = x
             if a.sort != b.sort and m.group(1)[:3] not in ("Shl", "Shr"):
                 raise Unsupported("binop sorts differ: %s" % rv)
             self.store(env, node, guard, c, self.binop(m.group(1), a, b, ta), is_ref_write)
@@ -551,7 +567,8 @@ class Executor:
         if m:
             a_t, b_t = split_top(m.group(2), ", ")
             (a, _), (b, _) = self.operand(env, a_t), self.operand(env, b_t)
-            ta = self.operand_type(env, a_t)
+            a, b = self.coerce_unknown(a, b)
+            ta = self.operand_type(env, a_t) or self.operand_type(env, b_t)
             res = self.binop(m.group(1), a, b, ta)
             ovf = self.overflow(m.group(1), a, b, is_signed(ta))
             self.kill(env, c)
@@ -626,6 +643,15 @@ class Executor:
             self.havoc_place(env, c, dty)
             return
         raise Unsupported("rvalue: %s" % rv)
+
+    def coerce_unknown(self, a, b):
+        """an unknown named constant takes the width of the operand it meets"""
+        if a.sort != b.sort:
+            if a.alts == ("?",) and b.sort not in (None, "Bool"):
+                a = Val(self.ctx.sym("const?", b.sort), b.sort)
+            elif b.alts == ("?",) and a.sort not in (None, "Bool"):
+                b = Val(self.ctx.sym("const?", a.sort), a.sort)
+        return a, b
 
     def operand_type(self, env, text):
         text = text.strip()
